@@ -1,2 +1,2 @@
 import LdkModel.Driver.C19
-def main (args : List String) : IO UInt32 := Ldk.Driver.runMain [("c19kv", Ldk.Driver.c19kv), ("c19mup", Ldk.Driver.c19mup)] args
+def main (args : List String) : IO UInt32 := Ldk.Driver.runMain [("c19kv", Ldk.Driver.c19kv), ("c19mup", Ldk.Driver.c19mup), ("c19mt", Ldk.Driver.c19mt)] args
